@@ -60,20 +60,31 @@ class SignalAnchors:
         raise AnalysisError("anchor-missing weak instance reference attribute in Signal.__get__")
 
     @cached_property
-    def subscribe(self) -> FuncInfo:
-        for m in self.Signal.methods.values():
-            if "contextmanager" in m.decorators:
-                for n, mu in self.a.func_mutations(m):
-                    if mu.kind in ("call:append", "call:add") and len(mu.path) == 2 and mu.path[0] == "self":
-                        return m
-        raise AnalysisError("anchor-missing subscribe helper (context manager appending to the subscriber list)")
+    def streams_attr(self) -> str:
+        """The list field of Signal that subscribers' send streams are appended to."""
+        fields = [st.target.id for st in self.Signal.node.body if isinstance(st, ast.AnnAssign) and isinstance(st.target, ast.Name)]
+        for f in self.p.all_functions():
+            for n, mu in self.a.func_mutations(f):
+                if mu.kind in ("call:append", "call:add") and len(mu.path) >= 2 and mu.path[-1] in fields:
+                    return mu.path[-1]
+        raise AnalysisError("anchor-missing subscriber list attribute (no append to a Signal list field)")
 
     @cached_property
-    def streams_attr(self) -> str:
-        for n, mu in self.a.func_mutations(self.subscribe):
-            if mu.kind in ("call:append", "call:add") and len(mu.path) == 2 and mu.path[0] == "self":
-                return mu.path[1]
-        raise AnalysisError("anchor-missing subscriber list attribute")
+    def add_sites(self) -> list:
+        """[(func, cfg node, Mutation)] where a stream is added to a subscriber list."""
+        out = []
+        for f in self.p.all_functions():
+            for n, mu in self.a.func_mutations(f):
+                if mu.kind in ("call:append", "call:add", "call:insert") and len(mu.path) >= 2 and mu.path[-1] == self.streams_attr:
+                    out.append((f, n, mu))
+        return out
+
+    @cached_property
+    def subscribe(self) -> FuncInfo:
+        """The function in which the subscription is established."""
+        if not self.add_sites:
+            raise AnalysisError("anchor-missing subscription site")
+        return self.add_sites[0][0]
 
     @cached_property
     def event_class_field(self) -> str:
@@ -297,7 +308,7 @@ def run(ctx) -> None:
     for user in (sa.method("dispatch"), sa.subscribe):
         ucfg = a.cfg(user)
         calls = [n for n in ucfg.live_nodes() if any(c.kind == "func" and c.func is chk for _, c in a.node_calls(user, ucfg, n))]
-        effects = [n for n, m in a.func_mutations(user)]
+        effects = [n for n, m in a.func_mutations(user) if user is sa.method("dispatch") or m.path[-1] == sa.streams_attr]
         ok = bool(calls) and all(ucfg.dominates(calls[0].id, e.id) for e in effects)
         sends = [n for n in ucfg.live_nodes() if any(call_name(cl) in ("send_nowait", "send") for cl, _ in a.node_calls(user, ucfg, n))]
         ok = ok and all(ucfg.dominates(calls[0].id, s.id) for s in sends)
